@@ -5,7 +5,8 @@
 dir=$1; shift
 wt=/tmp/sv-$$
 git -C /repo worktree add -q $wt HEAD || exit 2
-trap "git -C /repo worktree remove --force $wt >/dev/null 2>&1; git -C /repo worktree prune" EXIT
+ev=/tmp/sv-$$-evidence
+trap "git -C /repo worktree remove --force $wt >/dev/null 2>&1; git -C /repo worktree prune; rm -rf $ev" EXIT
 cp /repo/src/quantity/version.py $wt/src/quantity/version.py 2>/dev/null
 cd $wt
 PYTHONPATH=$wt/src /venv/bin/python $dir/demo.py >/dev/null 2>&1; base=$?
@@ -15,7 +16,7 @@ PYTHONPATH=$wt/src /venv/bin/python $dir/demo.py >/dev/null 2>&1; mut=$?
 suite=$(PYTHONPATH=$wt/src /venv/bin/python -m pytest -q -p no:cacheprovider -x 2>&1 | tail -1)
 echo "demo: pristine rc=$base, changed rc=$mut; suite with change: $suite"
 for c in "$@"; do
-  out=$(cd /verif && VERIF_REPO=$wt ./check $c 2>&1)
+  out=$(cd /verif && VERIF_REPO=$wt VERIF_EVIDENCE=$ev ./check $c 2>&1)
   rc=$?
   nv=$(echo "$out" | grep -c "^VIOLATION")
   echo "check $c: rc=$rc violations=$nv $(echo "$out" | grep -A1 "^VIOLATION" | sed -n 2p | cut -c1-220)"
